@@ -2,19 +2,7 @@
 
 package util
 
-import "net"
-
-// Read-only accessors for the verification harness (build tag `verif` only).
+// Read-only accessor for the verification harness (build tag `verif` only).
 
 // VerifTLDMap returns the live compiled-in TLD delegation table.
 func VerifTLDMap() map[string]GTLDPeriod { return tldMap }
-
-// VerifReservedNetworks returns copies of the reserved-network table entries.
-func VerifReservedNetworks() []net.IPNet {
-	out := make([]net.IPNet, 0, len(reservedNetworks))
-	for _, n := range reservedNetworks {
-		c := net.IPNet{IP: append(net.IP{}, n.IP...), Mask: append(net.IPMask{}, n.Mask...)}
-		out = append(out, c)
-	}
-	return out
-}
